@@ -487,6 +487,8 @@ def _resolve(step, order, geo):
     op = step['op']
     def pick(i):
         if i == 'centre': return max(order, key=lambda cl: cl.num_nodes)     # HANG: the many-sided column
+        if isinstance(i, str) and i.startswith('quad'):                       # k-th quadrilateral in canonical order
+            return [cl for cl in order if cl.num_nodes == 4][int(i[4:])]
         return order[i]
     def nm(i): return pick(i).name
     def ref(i):
@@ -775,6 +777,13 @@ def catalogue(tier):
         for nd in range(4):
             if thorough or nd in (0, 1):
                 plan(R22, [dict(op='split', col=col, node=nd)], 'R2x2/split/c%dn%d' % (col, nd))
+    # split A, then split an adjacent B (canonical index of B after the first split), all node choices
+    for a_nd in range(4):
+        for b_nd in range(4):
+            plan(R22, [dict(op='split', col=0, node=a_nd), dict(op='split', col='quad0', node=b_nd)], 'R2x2/split-split/c0n%d>q0n%d' % (a_nd, b_nd))
+            if thorough:
+                plan(R22, [dict(op='split', col=3, node=a_nd), dict(op='split', col='quad1', node=b_nd)], 'R2x2/split-split/c3n%d>q1n%d' % (a_nd, b_nd))
+                plan(Q4, [dict(op='split', col=1, node=a_nd), dict(op='split', col='quad0', node=b_nd)], 'Q4/split-split/c1n%d>q0n%d' % (a_nd, b_nd))
     for col in ((0, 1, 2, 3) if thorough else (1,)):
         plan(R22, [dict(op='triangulate', col=col)], 'R2x2/triangulate/c%d' % col)
     plan(R22, [dict(op='refine', sel=[0]), dict(op='triangulate', col=1)], 'R2x2/triangulate-after-refine/0>1')
@@ -800,6 +809,15 @@ def catalogue(tier):
     for hang in (HANG_SHAPES if thorough else HANG_QUICK):
         fam = dict(kind='HANG', nz=2, hang=hang, surf='mixed')
         plan(fam, [dict(op='decompose', sel='all')], 'HANG%s/decompose-all' % ''.join(map(str, hang)))
+    # the same polygon described from each of its starting nodes (7-node columns: the (7,3) case
+    # computes its start from list positions)
+    seven = [h for h in HANG_SHAPES if sum(h) == 3]
+    for hang in (seven if thorough else [[2, 0, 1, 0]]):
+        for rot in range(1, 7):
+            # cover='area': most of these are triangulated about the centroid (a rational function), where
+            # the pointwise cover query would only burn its 10 s before falling back
+            fam = dict(kind='HANG', nz=2, hang=hang, surf='mixed', rot=rot, cover='area')
+            plan(fam, [dict(op='decompose', sel='all')], 'HANG%s/rot%d/decompose-all' % (''.join(map(str, hang)), rot))
     for hang in ([[1, 0, 0, 0], [1, 1, 1, 1], [1, 0, 1, 0]] if thorough else [[1, 1, 0, 0]]):
         fam = dict(kind='HANG', nz=2, hang=hang, surf='mixed')
         plan(fam, [dict(op='decompose', sel=['centre'])], 'HANG%s/decompose-centre' % ''.join(map(str, hang)))
@@ -851,7 +869,8 @@ def run(tier, seed, rep):
         'RECT(3x3): %s selections (quick: 4 named shapes: single, strip, L, ring with hole; thorough: those plus every single column, rows, columns, 14 further patterns) - NOT all 511 subsets' % ('46' if tier == 'thorough' else '4'),
         'QUADFAM: Q1 = quadrilateral (0,0)(1,0)(a,b)(0,1) with a,b>0, a+b>1 and its centre specified at (1/2,1/2); Q4 = 2x2 unit squares whose shared node is moved to (a,b), |a-1|+|b-1|<1, centres left at the cell centres; symbolic origin',
         'earlier refinements: RECT(2x2) refined at column 0, then refined again (each single column of the result, all, all triangles)',
-        'decompose_columns: rectangular centre column with 1-6 hanging (straight) nodes distributed over its sides at symbolic positions, lined with small symbolic neighbour columns (%d distributions); %d concrete convex 5..9-gons with symbolic surfaces/layers/query point' % (len(HANG_SHAPES if tier == 'thorough' else HANG_QUICK), len(CONC_SHAPES) if tier == 'thorough' else 3),
+        'two-step splits: split_column of a column, then of an adjacent quadrilateral, all 16 node choices (RECT(2x2); a second pair and Q4 in the thorough tier)',
+        'decompose_columns: rectangular centre column with 1-6 hanging (straight) nodes distributed over its sides at symbolic positions, lined with small symbolic neighbour columns (%d distributions; the 7-node ones also with the node list started at each of the 7 nodes); %d concrete convex 5..9-gons with symbolic surfaces/layers/query point' % (len(HANG_SHAPES if tier == 'thorough' else HANG_QUICK), len(CONC_SHAPES) if tier == 'thorough' else 3),
         'refine_layers: RECT(1x1) (and 2x1, 2x2 in the thorough tier) with 2-3 symbolic layers, symbolic surfaces anywhere (the position among the new layer boundaries is forked), every layer subset, factor 2..4',
         'query point p and elevation z: unconstrained reals']
     rep.outside += ['all 511 column subsets of RECT(3x3); meshes larger than 3x3',
